@@ -324,10 +324,65 @@ contract(H + "cb_parse_len_gx", props=("C12",), params={"first": "bytes:1", "tai
                   "implies(returns(), len(result[3]) == 33 + len(tail) and result[3][:33] == first + spec.taproot.GX32)"],
          gen=_gen_cb_len)
 
-# tamper direction, the part that is not a hash argument: a flipped parity bit is a control block for the same
-# key with the WRONG parity (so the BIP341 rule `c[0] & 1 == parity(Q)` rejects it)
-contract(H + "leaf_cb_parity_flipped", props=("C12",), nl_uf=True, setup=INJ, params={"pub": point, "d0": D32},
+# tamper direction, the part that is not a hash argument: the recorded parity bit does not enter the recomputed
+# key, so a block with the bit flipped names the same key with the WRONG parity (BIP341 rule c[0] & 1 == parity(Q)
+# rejects it); the two serializations differ in the low bit of byte 0 only
+contract(H + "leaf_cb_parity_flipped", props=("C12",), nl_uf=True, params={"pub": point, "d0": D32},
          requires=["spec.taproot.tweak_defined(pub, spec.taproot.tree_hash((0xC0, spec.taproot.push_script(d0, 0xAC))))"],
          ensures=["returns()", "spec.curve.same(result[0], result[1])", "result[2] != result[0].parity",
-                  "result[2] == 1 - spec.taproot.parity(spec.taproot.output_key(pub, spec.taproot.tree_hash((0xC0, spec.taproot.push_script(d0, 0xAC)))))"],
+                  "result[2] == 1 - spec.taproot.parity(spec.taproot.output_key(pub, spec.taproot.tree_hash((0xC0, spec.taproot.push_script(d0, 0xAC)))))",
+                  "result[3][1:] == result[4][1:] and result[3][0] != result[4][0] and result[3][0] // 2 == result[4][0] // 2"],
          gen=_gen_tree(1, [0]))
+
+
+# ============================================================================ C13: MuSig
+SEC = ("int", 1, N - 1)
+
+
+def _gen_musig(n, with_root):
+    def gen(rng, tier):
+        for t in range(8 if tier == "quick" else 40):
+            d = {}
+            for i in range(1, n + 1):
+                d["d%d" % i] = (_DS[(t + i) % len(_DS)] + i) % N if t < 3 else rng.randrange(1, N)
+                d["k%d1" % i] = rng.randrange(1, N)
+                d["k%d2" % i] = rng.randrange(1, N)
+            d["msg"] = _rb(rng, 32)
+            d["root"] = _rb(rng, 32) if with_root else b""
+            yield d
+    return gen
+
+
+def _ds(n):
+    return "[%s]" % ", ".join("d%d" % i for i in range(1, n + 1))
+
+
+def _ks(n):
+    return "[%s]" % ", ".join("(k%d1, k%d2)" % (i, i) for i in range(1, n + 1))
+
+
+for _n in (2, 3):
+    _dparams = {"d%d" % i: SEC for i in range(1, _n + 1)}
+    _distinct = ["spec.taproot.musig_keys_distinct(%s)" % _ds(_n)]
+    # key aggregation == the description, and it does not depend on the order in which the keys are listed
+    contract(H + "musig_agg%d" % _n, props=("C13",), nl_uf=True, setup=INJ, params=dict(_dparams),
+             requires=_distinct,
+             ensures=["returns()", "spec.curve.same(result, spec.taproot.musig_agg_of_secrets(%s))" % _ds(_n)],
+             gen=_only(_gen_musig(_n, False), *_dparams))
+    contract(H + "musig_agg%d_orders" % _n, props=("C13",), nl_uf=True, setup=INJ, params=dict(_dparams),
+             requires=_distinct,
+             ensures=["returns()"] + ["spec.curve.same(result[0], result[%d])" % j for j in range(1, 2 if _n == 2 else 6)],
+             gen=_only(_gen_musig(_n, False), *_dparams))
+    for _sfx, _kind in (("plain", ("const", b"")), ("root", H32)):
+        _p = dict(_dparams)
+        for i in range(1, _n + 1):
+            _p["k%d1" % i] = SEC
+            _p["k%d2" % i] = SEC
+        _p["msg"] = H32
+        _p["root"] = _kind
+        contract(H + "musig_flow%d#%s" % (_n, _sfx), props=("C13",), nl_uf=True, setup=INJ, params=_p,
+                 requires=["spec.taproot.musig_defined(%s, %s, msg, root)" % (_ds(_n), _ks(_n))],
+                 ensures=["returns()",
+                          "result[0] == spec.taproot.x32(spec.taproot.musig_session_key(%s, root))" % _ds(_n),
+                          "spec.schnorr.verify(result[0], msg, result[1]) is True"],
+                 gen=_gen_musig(_n, _sfx == "root"), tiers=("quick", "thorough") if _n == 2 else ("thorough",))
